@@ -9,7 +9,7 @@ correspondence: harness/fmt_h.c runs the real sprintf builtin and libc snprintf 
                   CSpec.render vs snprintf-> the reference in the theorems is C      (kind corr)
                 plus printf through the CLI and CONVFMT/OFMT conversions.
 """
-import os, time, itertools, concurrent.futures
+import os, re, time, itertools, concurrent.futures
 from .. import common as C
 
 I64MIN, I64MAX = -2 ** 63, 2 ** 63 - 1
@@ -247,6 +247,12 @@ FREEFORM = [
     ("%05.03d", [("i", 42)]), ("%.010d", [("i", 42)]), ("%010.0d|", [("i", 0)]), ("%300d", [("i", 42)]), ("%.300d", [("i", 42)]),
     ("%-300.200x|", [("i", 42)]), ("%5000d", [("i", 7)]), ("%.5000d", [("i", 7)]), ("%*d", [("i", 9000), ("i", 7)]), ("%9000s", [("s", "abc", 0, "0")]),
     ("%-9000c|", [("i", 65)]), ("%5000.4000f", [("f", "1.5", 1.5)]),
+    # more arguments than specifiers (the excess is ignored), a specifier cut off behind complete ones, unknown specifiers between known ones
+    ("%d", [("i", 1), ("i", 2)]), ("plain", [("i", 1)]), ("%%", [("i", 1)]), ("%d%", [("i", 1)]), ("%d %5.", [("i", 1)]), ("%s|%y|%s", [("s", "a", 0, "0"), ("s", "b", 0, "0")]),
+    ("%i|%5i|%-5i|%05i|%+i|% i|%.3i", [("i", 42), ("i", 42), ("i", 42), ("i", 42)][:4]), ("%*y%d", [("i", 5), ("i", 6)]), ("%d%*", [("i", 5), ("i", 6)]),
+    ("%c|%c|%c|%c", [("f", "65.7", 65.7), ("s", "abc", 0, "0"), ("c", "x"), ("i", -1)]), ("%c|%c", [("y", "x"), ("m", "abc", 0, "0")]),
+    ("%s|%s|%s|%s", [("y", "x"), ("m", "abc", 0, "0"), ("c", "x"), ("f", "-0.0", -0.0)]), ("%5s|%-5s|%.1s|%5.0s|", [("i", 42), ("f", "1.5", 1.5), ("m", "abc", 0, "0"), ("c", "x")]),
+    ("%e|%E|%f|%g|%G", [("i", 3), ("s", "42x", 42, "42"), ("c", "7"), ("n",)]), ("%.3e %10.4f %-12g|", [("f", "1234567.0", 1234567.0), ("f", "0.000123", 0.000123), ("f", "1e+20", 1e20)]),
 ]
 
 
@@ -256,6 +262,7 @@ FREEFORM_EXPECT = {
     ("%5.", 0): "%5.", ("%.3", 0): "%.3", ("%y", 0): "%y", ("%5y|", 0): "%5y|", ("%-+5.2y|", 0): "%-+5.2y|", ("%ld", 1): "%ld", ("%lld|%hd", 1): "%lld|%hd",
     ("%zd", 1): "%zd", ("%F", 1): "%F", ("%a", 1): "%a", ("%n", 0): "%n", ("%p", 1): "%p",
     ("%*y|", 1): "%*y|", ("%*", 1): "%*", ("%.*", 1): "%.*", ("%*.*", 2): "%*.*", ("%.*y", 1): "%.*y", ("%-*.*q|", 2): "%-*.*q|",
+    ("%d", 2): "1", ("plain", 1): "plain", ("%%", 1): "%", ("%d%", 1): "1%", ("%d %5.", 1): "1 %5.", ("%s|%y|%s", 2): "a|%y|b",
     ("%d", 0): None, ("%d %d", 1): None, ("%*d", 1): None, ("%.*d", 1): None, ("%s", 0): None, ("%c", 0): None, ("%f", 0): None, ("%*", 0): None,
 }
 
@@ -404,8 +411,11 @@ def evaluate(ctx, exe, cases):
     # resolve libc pieces of the model
     req, reqidx = [], {}
     parsed = []
+    all_lspecs = []
     for c, ml in zip(cases, mout):
         m, r = None, None
+        lspecs = []
+        all_lspecs.append(lspecs)
         if ml.startswith("M="):
             mpart, rpart = ml[2:].split(" R=")
             r = None if rpart == "NA" else units(rpart)
@@ -423,6 +433,10 @@ def evaluate(ctx, exe, cases):
                         if key not in reqidx:
                             reqidx[key] = len(req); req.append(key)
                         m.append(("L", reqidx[key]))
+                        kla = ("%La", c.fltvals[int(idx)])
+                        if kla not in reqidx:
+                            reqidx[kla] = len(req); req.append(kla)
+                        lspecs.append((spec_s, reqidx[kla]))
                     else:
                         m = None; break
         parsed.append((m, r))
@@ -431,9 +445,30 @@ def evaluate(ctx, exe, cases):
         rl = ["R\t%s\t%s" % (hx(s), v) for s, v in req]
         ro, st2, e2 = run_harness_par(exe, rl)
         rres = [units(x[2:]) if x.startswith("C=") and x != "C=NA" else None for x in ro]
+    # what hawk handed to libc (snprintf interposed in the harness): F=<fmt hex>;<size>;<ret>;<%La hex>;<h|s>|...
+    flogs, qset = [], set()
+    for hl in hout:
+        fl = None
+        if hl.startswith("H=") and " F=" in hl:
+            fl = []
+            for call in hl.split(" F=", 1)[1].split("|"):
+                f = call.split(";")
+                if len(f) != 5: fl = "unreadable F= record %r" % call; break
+                fl.append((bytes.fromhex(f[0]).decode("latin-1"), int(f[1]), int(f[2]), bytes.fromhex(f[3]).decode("latin-1"), f[4]))
+                if int(f[2]) >= 0: qset.add(int(f[2]))
+        flogs.append(fl)
+    qlist = sorted(qset)
+    qmodel = {}
+    if qlist:
+        for q, ol in zip(qlist, run_driver_par(ctx, ["O\t%d\t-\t-" % q for q in qlist])):
+            qmodel[q] = ol
     out = []
-    for c, hl, (m, r) in zip(cases, hout, parsed):
+    for c, hl, (m, r), lspecs, flog in zip(cases, hout, parsed, all_lspecs, flogs):
         h, cc = None, None
+        fprob = None
+        if hl.startswith("H=") and isinstance(m, list):
+            fprob = handed_down_check(lspecs, flog, rres, qmodel)
+        if hl.startswith("H=") and " F=" in hl: hl = hl.split(" F=", 1)[0]
         if hl.startswith("H="):
             hp, cp = hl[2:].split(" C=")
             h = "!ERR" if hp.startswith("!ERR126") else (hp if hp.startswith("!") else units(hp))
@@ -450,8 +485,53 @@ def evaluate(ctx, exe, cases):
                 else:
                     flat += list(pc)
             m = tuple(flat) if flat is not None else "libc-render-failed"
-        out.append(dict(h=h, c=cc, m=m, r=r))
+        out.append(dict(h=h, c=cc, m=m, r=r, f=fprob))
     return out, status, errtxt
+
+
+HANDED = dict(calls=0, retries=0, specs=0)
+
+
+def handed_down_check(lspecs, flog, rres, qmodel):
+    """the snprintf calls hawk made for one case (interposed in the harness) against the model: the format text of every float
+    piece (`Fmt.recompose` / `FmtOut.composeInto`, theorems float_spec_passthrough, float_spec_denotes), the argument, and the buffer
+    protocol (`FmtOut.outLoop`, theorems float_out_one_or_two_calls, float_out_delivers_untruncated)"""
+    if isinstance(flog, str): return flog
+    flog = flog or []
+    # group the calls: a call whose return value does not fit its size is followed by the retry of the same conversion
+    groups, cur = [], []
+    for call in flog:
+        cur.append(call)
+        if call[2] < 0 or call[2] < call[1]:
+            groups.append(cur); cur = []
+    if cur: return "the last snprintf call hawk made returned %d for a buffer of %d cells and was not repeated: the text is delivered truncated" % (cur[-1][2], cur[-1][1])
+    # a %s (or a `*`) whose argument is a float goes through CONVFMT first (val_flt_to_str -> hawk_rtx_format -> snprintf("%.6Lg")): such a
+    # call is not a piece of this format; it is checked for the protocol only
+    pairs, i = [], 0
+    for g in groups:
+        if i < len(lspecs) and all(call[0] == lspecs[i][0] for call in g):
+            pairs.append((g, lspecs[i])); i += 1
+        elif all(call[0] == "%.6Lg" for call in g):
+            pairs.append((g, ("%.6Lg", None)))
+        else:
+            return "hawk handed the format text %r to snprintf, the model %r (conversion %d of %r)" % ([call[0] for call in g], lspecs[i][0] if i < len(lspecs) else None, i, [x[0] for x in lspecs])
+    if i != len(lspecs):
+        return "hawk made snprintf calls for the format texts %r, the model hands %r to libc" % ([g[0][0] for g in groups], [x[0] for x in lspecs])
+    for g, (spec, laidx) in pairs:
+        HANDED["specs"] += 1; HANDED["calls"] += len(g); HANDED["retries"] += len(g) - 1
+        la = rres[laidx] if laidx is not None and laidx < len(rres) else None
+        if la is not None and any(tuple(ord(ch) for ch in call[3]) != tuple(la) for call in g):
+            return "hawk handed the value %s to snprintf(%r), the argument is %s" % (g[0][3], spec, "".join(chr(x) for x in la))
+        q = g[-1][2]
+        if q < 0: continue
+        om = qmodel.get(q, "")
+        mm = re.match(r"O=ok capa=(\d+) heap=(\d) calls=(\d+) len=(\d+)", om)
+        if not mm: return "model of the fb.out protocol gives %r for a text of %d characters" % (om, q)
+        capa, heap, calls = int(mm.group(1)), int(mm.group(2)), int(mm.group(3))
+        msizes = [64] if calls == 1 else [64, capa + 1]
+        if [call[1] for call in g] != msizes or [call[4] for call in g] != (["s"] if calls == 1 else ["s", "h"]):
+            return "snprintf(%r) returning %d: hawk called it with buffers %r, the model (outLoop) with sizes %r (stack, then heap)" % (spec, q, [(call[1], call[4]) for call in g], msizes)
+    return None
 
 
 def composition_oracle(ctx, exe, cases, results):
@@ -467,7 +547,7 @@ def composition_oracle(ctx, exe, cases, results):
         lines = sorted({sc.line for sc in subs})
         hout, st, _ = run_harness_par(exe, lines)
         for l, o in zip(lines, hout):
-            cp = o.split(" C=")[1] if " C=" in o else "NA"
+            cp = o.split(" F=")[0].split(" C=")[1] if " C=" in o else "NA"
             cres[l] = None if cp == "NA" else units(cp)
     for c, r in zip(cases, results):
         r["x"] = None
@@ -507,6 +587,8 @@ def judge(case, res):
         return []
     if m is not None and h != m:
         probs.append(("corr", "hawk %s != model %s" % (show(h), show(m))))
+    if res.get("f"):
+        probs.append(("corr", "what hawk hands to libc: " + res["f"]))
     if r is not None and cc is not None and r != cc:
         probs.append(("spec", "CSpec.render %s != C snprintf(%r, ...) %s" % (show(r), case.cfmt, show(cc))))
     return probs
@@ -1187,6 +1269,79 @@ def scratch_growth_check(ctx, exe):
     return reps
 
 
+def scratch_sequence_check(ctx, exe):
+    """sequences of wide-string and byte-string integer conversions in ONE runtime, widths and precisions straddling the scratch-buffer
+    sizes (4096, 4096+8192, and the exact-fit growth beyond): the two formatters keep separate scratch buffers that grow by the same
+    rule, and neither may consult the other's.  Oracle: every text = snprintf's (and the sanitizer is silent); correspondence: the text
+    and both buffer lengths after every call = FmtOut.seqStep (theorems scratch_calls_within_buffer, scratch_other_formatter_untouched,
+    scratch_history_independent)"""
+    rng = ctx.rng
+    edge = [1, 7, 4095, 4096, 4097, 8191, 8192, 8193, 12287, 12288, 12289, 12290, 16384, 20479, 20480, 20481, 24577]
+    def op(m, fl, w, pr, conv, v): return (m, fl, w, pr, conv, v)
+    seqs = []
+    # the class itself: one formatter enlarges its buffer, then the other one formats a field that only fits the enlarged one
+    seqs.append([op("S", "", 300000, None, "d", 42), op("B", "", 200000, None, "d", 42), op("S", "", 5, None, "d", 7), op("B", "-", 290000, None, "x", 255), op("S", "0", 299999, None, "d", -1)])
+    seqs.append([op("B", "", 300000, None, "d", 42), op("S", "", 200000, None, "d", 42), op("B", "", 5, None, "d", 7), op("S", "", 3, 250000, "o", 8), op("B", "", 3, 260000, "u", 9)])
+    nseq, nops = (6, 28) if ctx.tier == "quick" else (40, 60)
+    for _ in range(nseq):
+        sq = []
+        for _ in range(nops):
+            m = rng.choice("SB")
+            k = rng.random()
+            w = rng.choice(edge) + rng.choice([0, 0, 0, -1, 1]) if k < 0.7 else rng.choice([None, 1, 2, rng.randrange(1, 30000)])
+            pr = None
+            if rng.random() < 0.3: pr = rng.choice(edge) + rng.choice([0, -1, 1])
+            if w is not None and w <= 0: w = 1
+            sq.append(op(m, rng.choice(["", "", "-", "0", "+", "#", " "]), w, pr, rng.choice("ddxouXi"), rng.choice([0, 1, -1, 42, -123456, 2 ** 40, 2 ** 63 - 1, -2 ** 63])))
+        seqs.append(sq)
+    def run_seq(sq):
+        hl, ml, cs = [], ["Q0"], []
+        for (m, fl, w, pr, conv, v) in sq:
+            c = Case(m, fl, None if w is None else ("lit", str(w)), None if pr is None else ("lit", str(pr)), conv, ("i", v))
+            cs.append(c)
+            hl += [c.line, "T"]
+            ml.append("\t".join(["Q", m, hx(fl), str(w or 0), "-" if pr is None else str(pr), conv, str(c.val[1])]))
+        hout, st, errtxt = run_harness_par(exe, hl, nproc=1)
+        replay = "# one runtime, the lines in this order (T prints rtx->format.tmp.len and rtx->formatmbs.tmp.len); ./check C12 --replay <this file>\n" + \
+                 "".join("# %s\n" % c.desc for c in cs) + "\n".join(hl) + "\n"
+        if st != "ok":
+            return ("a sequence of wide and byte-string printf formats in one runtime (%s) ends with %s: %s" % ("; ".join(c.desc for c in cs[:6]), st, errtxt[-1200:]), None, replay)
+        mout = C.run_driver(ctx, "fmt", ml, timeout=300)[1:]
+        bad_impl = bad_corr = None
+        for k, c in enumerate(cs):
+            ho, to = hout[2 * k], hout[2 * k + 1]
+            mo = mout[k] if k < len(mout) else ""
+            hp = ho[2:].split(" F=")[0].split(" C=")
+            if len(hp) == 2 and hp[1] != "NA" and hp[0] != hp[1] and bad_impl is None:
+                bad_impl = "step %d %s in a sequence of wide and byte-string formats of one runtime: hawk gives %d characters %s..., snprintf %d characters %s..." % (
+                    k, c.desc, hp[0].count(".") + 1, hp[0][:60], hp[1].count(".") + 1, hp[1][:60])
+            mm = re.match(r"Q=(\d+) (\d+) text=(\S+) calls=", mo)
+            if mm and bad_corr is None:
+                if to != "T=%s %s" % (mm.group(1), mm.group(2)):
+                    bad_corr = "step %d %s: scratch buffers (format.tmp.len formatmbs.tmp.len) are %s, model (FmtOut.seqStep) %s %s" % (k, c.desc, to, mm.group(1), mm.group(2))
+                elif len(hp) == 2 and hp[0] != mm.group(3):
+                    bad_corr = "step %d %s: text differs from the model (FmtOut.seqStep / emitInt)" % (k, c.desc)
+            elif not mm and bad_corr is None:
+                bad_corr = "step %d: no answer of the model (%r)" % (k, mo[:80])
+        return (bad_impl, bad_corr, replay)
+
+    n = 0
+    nrep = 0
+    for sq in seqs:
+        n += len(sq)
+        bad_impl, bad_corr, replay = run_seq(sq)
+        if bad_impl and nrep < 2:
+            nrep += 1
+            small = C.ddmin(sq, lambda sub: run_seq(sub)[0] is not None, max_tests=40)
+            bi2, _, rp2 = run_seq(small)
+            if bi2: bad_impl, replay = bi2, rp2          # the shrunk sequence still fails: report it
+            ctx.problem("impl", bad_impl, replay, found_input=True)
+        elif bad_corr and not bad_impl and nrep < 2:
+            nrep += 1
+            ctx.problem("corr", "MODEL != CODE: " + bad_corr + " (theorems scratch_calls_within_buffer, scratch_other_formatter_untouched, scratch_history_independent)", replay, found_input=False)
+    return n
+
+
 # ---------------------------------------------------------------------------------------------
 def corpus_cases():
     out = []
@@ -1242,7 +1397,7 @@ def build_private(ctx):
             break
         except OSError:
             libdir = C.build_libhawk(ctx)      # pruned between build and copy: build again
-    exe = C.cc_harness(ctx, os.path.join(C.VERIF, "harness", "fmt_h.c"), link_lib=priv)
+    exe = C.cc_harness(ctx, os.path.join(C.VERIF, "harness", "fmt_h.c"), link_lib=priv, extra=["-Wl,--wrap=snprintf"])
     return priv, exe
 
 
@@ -1250,6 +1405,15 @@ SIGS = []   # no accepted findings: every confirmed defect of this area was repa
 
 
 def run(ctx):
+    from extract import fmt_dispatch
+    trans_err = None
+    try:
+        info = fmt_dispatch.generate()
+        ctx.log("translator: dispatch rows wide=%d byte=%d, int switch cases=%d, float cases=%d, changed=%s" % (info["wide_rows"], info["byte_rows"], info["int_cases"], info["float_cases"], info["changed"]))
+    except (fmt_dispatch.TranslateError, ValueError, IndexError) as e:
+        # fail closed, but go on with the table generated last so that a concrete failing input can still be found
+        trans_err = "%s: %s" % (type(e).__name__, e)
+        ctx.log("translator FAILED: %s" % trans_err)
     proof = C.prove(ctx, "HawkModel.Props.C12", leanchecker=(ctx.tier == "thorough"))
     libdir, exe = build_private(ctx)
     rng = ctx.rng
@@ -1318,7 +1482,7 @@ def run(ctx):
                         "# one case per line for harness/fmt_h.c (built against the repo under test) and `hawkdrv fmt`; ./check C12 --replay <this file>\n" + small.line + "\n",
                         found_input=(kind == "impl"))
     evaluations = len(cases)
-    ctx.log("judged")
+    ctx.log("judged; handed to libc: %d conversions in %d snprintf calls (%d retries with a grown buffer) compared with the model" % (HANDED["specs"], HANDED["calls"], HANDED["retries"]))
     sub = [c for c in cases[ncorpus:] if c.extra is None]
     step = max(1, len(sub) // (1500 if ctx.tier == "quick" else 6000))
     evaluations += cli_printf(ctx, libdir, exe, sub[::step])
@@ -1330,7 +1494,11 @@ def run(ctx):
     ctx.log("number-to-string consumers done")
     evaluations += convfmt_checks(ctx, libdir, exe)
     evaluations += scratch_growth_check(ctx, exe)
+    evaluations += scratch_sequence_check(ctx, exe)
     ctx.log("CONVFMT/OFMT done")
+    if trans_err:
+        ctx.problem("corr", "translator extract/fmt_dispatch.py no longer understands the conversion dispatch of lib/run.c / lib/fmt.c (%s); the regenerated tables and the theorems "
+                    "dispatch_table_tie, int_switch_table_tie, recompose_flag_order_tie, table_int_rows_like_C, table_flt_rows_to_libc may not describe this code" % trans_err, trans_err + "\n", found_input=False)
     nontriv = len({c.key() for c in cases if c.nontrivial()})
     samples = [c.desc for c in (cases[ncorpus + 5], cases[len(cases) // 3], cases[len(cases) // 2], cases[-1])]
     return C.finish(ctx, [proof], evaluations, nontriv,
@@ -1338,13 +1506,16 @@ def run(ctx):
                     "(32 flag subsets x 4 widths x 4 precisions x 13 conversions x 10 values; byte-string twin on a smaller grid) + seeded random specifiers "
                     "(flags in any order with repeats, literal/*/negative widths and precisions up to 10^4, 28 values + random integers) + seeded random multi-specifier formats"
                     + ("; thorough adds the full 32x8x7x13x28 grid" if ctx.tier == "thorough" else "") +
-                    "; each case: hawk sprintf vs libc snprintf (equivalently typed argument), hawk vs Lean model (float pieces rendered by libc with the model's specifier), "
+                    "; each case: hawk sprintf vs libc snprintf (equivalently typed argument), hawk vs Lean model (float pieces rendered by libc with the model's specifier), every snprintf call hawk makes "
+                    "(format text, long double argument, buffer sizes, stack/heap) vs the model (FmtOut.outLoop), "
                     "CSpec.render vs snprintf; plus printf via the CLI on a sample, CONVFMT/OFMT conversions, and the nested-formatting family (printf/sprintf/print whose argument "
                     "expressions themselves call sprintf, run printf to another stream or convert through CONVFMT, one argument position at a time and all at once, compared with sprintf of the plain values). "
                     "distinct_nontrivial = distinct (format,arguments) whose specifier has a flag, a width or a precision",
-                    samples, extra_cov=dict(conversion_distribution=dist, comparisons=ncmp, harness_status=status),
-                    trusted=["run.c/fmt-imp.h/fmt.c formatter modelled by hand in HawkModel/Fmt.lean (value conversions valtoint/valtoflt/valtostr, GROW buffers, %k %K %w %W not modelled)",
-                             "float digit generation is libc's (hawk hands the recomposed specifier to snprintf): only the specifier is proved",
+                    samples, extra_cov=dict(conversion_distribution=dist, comparisons=ncmp, harness_status=status, handed_to_libc=dict(HANDED)),
+                    trusted=["run.c/fmt-imp.h/fmt.c formatter modelled by hand in HawkModel/Fmt.lean + FmtOut.lean (value conversions valtoint/valtoflt/valtostr, %k %K %w %W not modelled); the conversion dispatch, "
+                             "the integer switch, fmt.c's float case labels and flag re-composition order are regenerated from the source (extract/fmt_dispatch.py) and tied by theorems",
+                             "float digit generation is libc's: a parameter `render` of the model, assumed only to obey snprintf's contract (ISO C 7.21.6.5); the specifier text, the argument and the "
+                             "buffer/retry protocol hawk uses around it are proved and compared with the real calls (snprintf interposed at link time in the harness)",
                              "CSpec (ISO C 7.21.6.1 for d i o u x X c s) written by hand; validated against glibc snprintf on every case",
                              "harness maps hawk values to the equivalently typed C argument (intmax_t / uintmax_t / int / char* / long double) by the rule in vlib/props/c12.py c_equiv"],
                     assumptions=["width and precision < 2^31 (the C code narrows them to int)", "hawk_int_t is 64 bit, hawk_flt_t is long double, hawk_ooch_t is 16 bit (as configured in /repo)",
@@ -1354,8 +1525,20 @@ def run(ctx):
 def replay(ctx, path):
     libdir, exe = build_private(ctx)
     lines = [l.rstrip("\n") for l in open(path) if l.strip() and not l.startswith("#")]
-    sb = [RawCase(l) for l in lines if l.split("\t")[0] in ("S", "B")]
     bad = 0
+    if "T" in lines and any(l.split("\t")[0] in ("S", "B") for l in lines):
+        # a sequence in ONE runtime: all lines through one harness process, in order
+        out, st, err = run_harness_par(exe, lines, nproc=1)
+        for l, o in zip(lines, out):
+            if l == "T": print("   scratch buffers (format.tmp.len formatmbs.tmp.len):", o); continue
+            hp = o[2:].split(" F=")[0].split(" C=")
+            same = len(hp) == 2 and (hp[1] == "NA" or hp[0] == hp[1])
+            print("%s -> hawk %d characters, snprintf %s: %s" % (RawCase(l).desc, hp[0].count(".") + 1, (hp[1].count(".") + 1) if len(hp) == 2 and hp[1] != "NA" else "-", "same" if same else "<<< DIFFERENT"))
+            bad += 0 if same else 1
+        if st != "ok":
+            print("harness status:", st, err[-1500:]); bad += 1
+        return 1 if bad else 0
+    sb = [RawCase(l) for l in lines if l.split("\t")[0] in ("S", "B")]
     if sb:
         res, st, err = evaluate(ctx, exe, sb)
         for c, r in zip(sb, res):
